@@ -162,8 +162,8 @@ def gen_config(rng, sp, profile):
     # runner-level options through the three channels
     ro = {}
     if rng.random() < profile.get("p_runner_opts", 0.0):
-        def put(field, value, flag, envname, bop, render=str):
-            ch = rng.choice(["cli", "env", "builder", "cli+env", "cli+builder", "env+builder"])
+        def put(field, value, flag, envname, bop, render=str, only=None):
+            ch = only or rng.choice(["cli", "env", "builder", "cli+env", "cli+builder", "env+builder"])
             it.how[field] = ch
             other = render(rng.choice(profile.get("decoys", {}).get(field, [value])))
             v = render(value)
@@ -190,7 +190,11 @@ def gen_config(rng, sp, profile):
         if rng.random() < 0.4:
             P = TG.PARALLELISM
             th = rng.choice([[1], [2], [1, 2], [0], [3, 1, 3], [2, 4], [0, P], [P, 2, 0], [0, 0, 1]])
-            put("th", th, "--threads", "DIVAN_THREADS", "threads", render=lambda v: ",".join(map(str, v)))
+            if rng.random() < 0.12:
+                # an empty list is a set option too (it resolves to one thread and masks the levels below); only the builder can say it
+                put("th", [], "--threads", "DIVAN_THREADS", "threads", render=lambda v: ",".join(map(str, v)), only="builder")
+            else:
+                put("th", th, "--threads", "DIVAN_THREADS", "threads", render=lambda v: ",".join(map(str, v)))
         for k in range(4):
             if rng.random() < 0.2:
                 put("c%d" % k, rng.choice([0, 1, 9, 500, 65536]), "--" + COUNTER_FLAGS[k], COUNTER_ENV[k], COUNTER_BUILDER[k])
